@@ -70,6 +70,7 @@ def cases(tier, seed):
         out.append((name + '/params', ('params', name)))
         out.append((name + '/bfs', ('bfs', name, BOUNDS[tier]['depth'])))
         out.append((name + '/lifecycle', ('life', name, seed)))
+        out.append((name + '/pickle_family', ('pickfam', name, tier)))
     return out
 
 
@@ -102,6 +103,49 @@ def run_case(spec):
     C = zoo.cls(name)
     viol, sigs = [], set()
     evals = 0
+    if kind == 'pickfam':
+        # every documented option value, as configured and with the solver cut before its first step (the model is then the
+        # initialisation itself, which may be a VIEW of some intermediate array): after a pickle round trip every output must
+        # be the same bit for bit, also when it is asked for one sample / one pair at a time
+        for dsn in (('S3u', 'S5') if spec[2] == 'quick' else ('S3u', 'S5', 'S4u', 'S6')):
+            ds = data.dataset(dsn)
+            base = zoo.cls(name)().get_params()
+            for lab, o in zoo.option_configs(name, ds, 'quick'):
+                budgets = [{}]
+                if 'max_iter' in base:
+                    budgets.append({'max_iter': 2 if name == 'LMNN' else 1})
+                if name in ('NCA', 'MLKR'):
+                    budgets.append({'tol': 1e10})
+                for extra in budgets:
+                    try:
+                        est = zoo.fit(name, ds, **dict(o, **extra))
+                    except Exception:
+                        continue          # whether fit succeeds is C03's business
+                    pk = pickle.loads(pickle.dumps(est))
+                    evals += 1
+                    X = ds.X
+                    bad = []
+                    if not np.array_equal(est.transform(X), pk.transform(X)):
+                        bad.append('transform(all points)')
+                    nb = sum(not np.array_equal(est.transform(X[i:i + 1]), pk.transform(X[i:i + 1])) for i in range(len(X)))
+                    if nb:
+                        bad.append('transform(one point at a time): %d of %d points' % (nb, len(X)))
+                    pr = np.array([[X[i], X[(i * 3 + 1) % len(X)]] for i in range(len(X))])
+                    if not np.array_equal(est.pair_distance(pr), pk.pair_distance(pr)):
+                        bad.append('pair_distance(batch)')
+                    if any(est.pair_distance(pr[i:i + 1])[0] != pk.pair_distance(pr[i:i + 1])[0] for i in range(len(pr))):
+                        bad.append('pair_distance(one pair at a time)')
+                    if not np.array_equal(est.get_mahalanobis_matrix(), pk.get_mahalanobis_matrix()):
+                        bad.append('get_mahalanobis_matrix')
+                    sigs.add((name, dsn, lab, tuple(extra.items())))
+                    if bad:
+                        L = est.components_
+                        viol.append(V(name + '.pickle', 'pickle_changes_output', '%s [%s%s on %s] differs after a pickle round trip (components_ is %s)'
+                                      % ('; '.join(bad), lab, (', ' + repr(extra)) if extra else '', dsn,
+                                         'C-contiguous' if L.flags['C_CONTIGUOUS'] else ('Fortran-ordered' if L.flags['F_CONTIGUOUS'] else 'a strided view')),
+                                      [lab] + ['%s=%s' % kv for kv in extra.items()]))
+        return dict(evals=evals, sigs=sigs, viol=viol,
+                    sample={'estimator': name, 'case': 'pickle round trip over the option product, full and zero-step budgets', 'queries': 'batch and one at a time'})
     if kind == 'params':
         for pname, default in ctor_params(name):
             if isinstance(default, str) and default == 'deprecated':
